@@ -171,12 +171,29 @@ Fixpoint collect (i : Z) (rs : list (option (result Z))) : option (list Z * list
       end
   end.
 
+(* Calls the property says nothing about are not compared: Clamp(v, lo, hi) with hi < lo.  The harness leaves
+   their results out of [c_obs]/[c_pan] (indices count the compared calls only); the model skips the same
+   tuples.  (All carriers are coded order preservingly in Z, so [hi <? lo] is the order of the type.) *)
+Definition compared (f : fn) (tup : list Z) : bool :=
+  match f, tup with
+  | FClamp, [_; lo; hi] => negb (hi <? lo)
+  | _, _ => true
+  end.
+
 Definition run_case (c : case) : option (list Z * list (Z * panic_kind)) :=
-  collect 0 (map (run1 (c_fn c) (c_ty c)) (tuples_of (c_args c))).
+  collect 0 (map (run1 (c_fn c) (c_ty c)) (filter (compared (c_fn c)) (tuples_of (c_args c)))).
+
+(* TernCast panics through a failed type assertion: only "panicked / did not panic" is compared for it, not
+   the kind the harness derives from the panic value. *)
+Definition pan_eqb (f : fn) (a b : Z * panic_kind) : bool :=
+  match f with
+  | FTernCast | FTernCastIface => fst a =? fst b
+  | _ => prod_eqb Z.eqb panic_kind_eqb a b
+  end.
 
 Definition check_case (c : case) : bool :=
   match run_case c with
   | None => false
   | Some (vs, ps) =>
-      list_eqb Z.eqb vs (c_obs c) && list_eqb (prod_eqb Z.eqb panic_kind_eqb) ps (c_pan c)
+      list_eqb Z.eqb vs (c_obs c) && list_eqb (pan_eqb (c_fn c)) ps (c_pan c)
   end.
